@@ -78,7 +78,12 @@ def job_specs(draw, max_tasks: int = 14, min_tasks: int = 0, max_outs: int = 4, 
         if nouts == 1:
             outs = [draw(st.sampled_from(["__default__", "0", "out"]))]
         else:
-            outs = [str(k) for k in range(nouts)]  # as the fluent API names them; sorted == declared for <= 10
+            outs = [str(k) for k in range(nouts)]  # as the fluent API names them
+            style = draw(st.integers(0, 5))
+            if style == 0 and nouts <= 4:
+                outs = draw(st.permutations(["upper", "lower", "mid", "aux"][:nouts]))  # declared in any order; yields follow key order
+            elif style == 1:
+                outs = list(draw(st.permutations(outs)))  # numeric names, declared shuffled
         nargs = draw(st.integers(0, 3))
         nkw = draw(st.integers(0, 2))
 
